@@ -15,6 +15,39 @@ CLAIMED = {
     ),
 }
 
+CLAIMED.update({
+    "C03": (
+        "error-discipline lint over try/except structure, CFG no-fall-through of error(), sibling cross-check of _check_type, loader-exception coverage (static, ast)",
+        "Decides the library's own conversion discipline: every parse entry wraps its package calls in except (TypeError, KeyError) -> self.error; argparse.ArgumentError is converted; error() has no normal exit and ends in ArgumentError or usage+error on stderr and exit(2); each _check_type sibling converts what its body can raise; every loader mode has anticipated exceptions and every load call site sits under a handler for them. Not decided: implicit exceptions (AttributeError, RecursionError, ...) on unanticipated values - no sound static argument without types.",
+        "Trusted: handlers are matched by written exception names (no type inference); callee resolution by name with receiver heuristics; PRELUDE calls are deliberately outside the conversion. Known finding F11 (parse_path).",
+        "DESIGN.md section 3 / C03",
+    ),
+    "C04": (
+        "provenance-rank forward dataflow over merge_config call sites + dominance checks of phase order (static, ast CFG)",
+        "Decides that every merge site merges a later source into an earlier one (DEFAULTS < ENV < GIVEN < NEW), that merge_config updates the `to` clone with the `from` clone, and the phase order in _load_env_vars / merge_config / parse_args / get_defaults. This is exactly the 'swapped merge argument' fault the property names. Not decided: the final value of every key for every source combination.",
+        "Trusted: producer table (callee -> rank) and per-function GIVEN table in rules_C04.py; an unrankable merge site is an ANALYSIS-ERROR, not a pass; Namespace.update semantics.",
+        "DESIGN.md section 3 / C04",
+    ),
+    "C06": (
+        "flag-sensitive path analysis of validate.check_values, pairing / who-may-call checks on required_args (static, ast CFG)",
+        "Decides that the rejecting paths exist on every path: a key without action ends in NSKeyError or one of two documented skips; leftover argv reaches self.error; parse_known_args refuses external callers; `required` is moved to required_args under the same condition it is cleared; required keys are removed only by their two owners; check_required coverage; class init_args are stored only from the per-class parser. Not decided: coverage of every position of every configuration tree.",
+        "Trusted: lexical guard chains stand for control dependence; `action` is not reassigned in the check_values loop (verified each run).",
+        "DESIGN.md section 3 / C06",
+    ),
+    "C15": (
+        "dominance / must-pass-through queries on CFGs of the link machinery, dump and save (static, ast CFG)",
+        "Decides necessary ordering and sealing conditions: links applied before validation and after subcommand handling; ActionLink.__call__ can only raise; option strings of a replaced target re-pointed and target dropped from required; link targets stripped before every serialisation path (dump, skip_default defaults, multi-file save, print_config); set_target_value stores on every non-ignored path. Not decided: target == f(sources) over all inputs.",
+        "Trusted: argparse dispatches through parser._option_string_actions; exception edges over-approximate.",
+        "DESIGN.md section 3 / C15",
+    ),
+    "C16": (
+        "dominance and guard-structure (typestate) checks of the link ordering code (static, ast CFG)",
+        "Narrow: decides that the cycle check sees the new link and its error propagates, that instantiate_classes iterates the reordered components and applies incoming links before building each, the DFS bookkeeping typestate of topological_sort (mark before loop, guarded recursion, raise iff exploring, post-order prepend), and applied-link bookkeeping. NOT decided: that the hand-written DFS is correct for every digraph (needs execution or proof).",
+        "Trusted: none beyond Python list/dict semantics; the evidence states explicitly that the exhaustive graph claim is not decided.",
+        "DESIGN.md section 3 / C16",
+    ),
+})
+
 NOT_APPLICABLE = {
     "C07": "relational equality of the behaviour of four declaration styles implemented in four modules; no clause is visible in the shape of any one code path, and the only structural candidate (prefixing consistency in _move_parser_actions) is a lint whose violation need not change behaviour (DESIGN.md section 3 / C07)",
     "C13": "soundness of the library's own static parameter resolver over all user programs; decided per program only against the interpreter (an execution oracle); the single wiring clause is too thin to count as deciding anything (DESIGN.md section 3 / C13)",
